@@ -323,6 +323,25 @@ func (e *SpecEnv) ident(name string) (Value, error) {
 			return e.frame.env[best], nil
 		}
 	}
+	// a local variable that lives in memory (its address is taken): the Alloc of that name; checked before
+	// the DebugRef records, which for such a variable are snapshots of single assignments
+	if e.frame != nil {
+		for _, b := range e.frame.fn.Blocks {
+			for _, ins := range b.Instrs {
+				if al, ok := ins.(*ssa.Alloc); ok && al.Comment == name {
+					if v, ok := e.frame.env[al]; ok {
+						if pv, isPtr := v.(*PtrV); isPtr && len(pv.path) == 0 {
+							if _, isStruct := al.Type().(*types.Pointer).Elem().Underlying().(*types.Struct); !isStruct {
+								// a scalar / slice / interface variable: its current content
+								return e.x.load(e.cur(), pv, nil, token.NoPos), nil
+							}
+						}
+						return v, nil
+					}
+				}
+			}
+		}
+	}
 	// any other local: the value a DebugRef of that name records, defined in a block that
 	// dominates the point of evaluation (innermost one wins)
 	if e.frame != nil {
@@ -366,18 +385,6 @@ func (e *SpecEnv) ident(name string) (Value, error) {
 			}
 		}
 	}
-	// a local variable that lives in memory (its address is taken): the Alloc of that name
-	if e.frame != nil {
-		for _, b := range e.frame.fn.Blocks {
-			for _, ins := range b.Instrs {
-				if al, ok := ins.(*ssa.Alloc); ok && al.Comment == name {
-					if v, ok := e.frame.env[al]; ok {
-						return v, nil
-					}
-				}
-			}
-		}
-	}
 	// package-level constant
 	if e.fn != nil {
 		var pkg *types.Package
@@ -389,6 +396,16 @@ func (e *SpecEnv) ident(name string) (Value, error) {
 		if pkg != nil {
 			if v, err := e.pkgObject(pkg, name); err == nil {
 				return v, nil
+			}
+			// package-level variable: its (read-only) content
+			if _, isVar := pkg.Scope().Lookup(name).(*types.Var); isVar {
+				if sp := e.x.w.prog.Package(pkg); sp != nil {
+					if g, ok := sp.Members[name].(*ssa.Global); ok {
+						if pv, ok := e.x.globalPtr(e.cur(), g).(*PtrV); ok {
+							return e.x.load(e.cur(), pv, nil, token.NoPos), nil
+						}
+					}
+				}
 			}
 		}
 	}
@@ -640,6 +657,29 @@ func (e *SpecEnv) call(n *ast.CallExpr) (Value, error) {
 			return itoaTerm(t), nil
 		case "forall", "exists":
 			return e.quant(id.Name, n)
+		case "forallstr":
+			// forallstr(s, body): for every string s
+			if len(n.Args) != 2 {
+				return nil, fmt.Errorf("forallstr(s, body) expected")
+			}
+			sid, ok := n.Args[0].(*ast.Ident)
+			if !ok {
+				return nil, fmt.Errorf("forallstr: first argument must be an identifier")
+			}
+			e.x.fresh++
+			bv := VarT(fmt.Sprintf("%s!b%d", sid.Name, e.x.fresh), "String")
+			saved, had := e.bound[sid.Name]
+			e.bound[sid.Name] = bv
+			body, err := e.evalTerm(n.Args[1])
+			if had {
+				e.bound[sid.Name] = saved
+			} else {
+				delete(e.bound, sid.Name)
+			}
+			if err != nil {
+				return nil, err
+			}
+			return Quant("forall", []*Term{bv}, body), nil
 		case "appended":
 			return e.appended(n)
 		case "samePrefix":
@@ -976,6 +1016,10 @@ func (e *SpecEnv) methodCall(recv Value, name string, argExprs []ast.Expr) (Valu
 	if rt.Sort == "Err" && name == "Error" {
 		return Sel("err_msg", rt), nil
 	}
+	if strings.HasPrefix(rt.Sort, "Ptr_") {
+		// a boxed pointer to a struct: the method of the pointee (value receiver) on the unboxed value
+		rt = Sel("unbox_"+rt.Sort, rt)
+	}
 	if named := w.structOf[rt.Sort]; named != nil {
 		if fn := w.prog.LookupMethod(named, named.Obj().Pkg(), name); fn != nil {
 			return e.applyFunc(fn, rt, argExprs)
@@ -1284,6 +1328,18 @@ func (e *SpecEnv) goTypeOf(ex ast.Expr) types.Type {
 					return p.Type()
 				}
 			}
+			// package-level variable
+			var pkg *types.Package
+			if e.fn.Pkg != nil {
+				pkg = e.fn.Pkg.Pkg
+			} else if e.fn.Parent() != nil && e.fn.Parent().Pkg != nil {
+				pkg = e.fn.Parent().Pkg.Pkg
+			}
+			if pkg != nil {
+				if v, ok := pkg.Scope().Lookup(n.Name).(*types.Var); ok {
+					return v.Type()
+				}
+			}
 		}
 	case *ast.SelectorExpr:
 		bt := e.goTypeOf(n.X)
@@ -1514,6 +1570,12 @@ func (e *SpecEnv) stringsCall(name string, argExprs []ast.Expr) (Value, error) {
 		return App("str.contains", "Bool", args[0], args[1]), nil
 	case "ReplaceAll":
 		return replaceAll(args[0], args[1], args[2]), nil
+	case "Index":
+		return App("str.indexof", "Int", args[0], args[1], IntT(0)), nil
+	case "IndexFrom":
+		// strings.IndexFrom(s, sub, from): contract-only helper, the index of the first occurrence of
+		// sub in s at or after from (-1 if none)
+		return App("str.indexof", "Int", args[0], args[1], args[2]), nil
 	case "TrimSpace":
 		return trimSpace(args[0]), nil
 	case "TrimLeft":
